@@ -340,8 +340,9 @@ class Enum:
                 if p.out != "val":
                     res.append(p)
                     continue
-                if is_let:
-                    branches = [p.val] if p.val in (True, False) else [True, False]
+                if is_let or p.val is True or p.val is False:
+                    # the condition's own path already fixes its truth (if-let, or a `matches!`-style match with literal bool arms)
+                    branches = [p.val] if (p.val is True or p.val is False) else [True, False]
                     heads = [(b, p) for b in branches]
                 else:
                     heads = [(True, p.then(P([("branch", desc(c), True, Ref(e))]))), (False, p.then(P([("branch", desc(c), False, Ref(e))])))]
@@ -399,9 +400,14 @@ class Enum:
                     continue
                 for i, arm in enumerate(e["arms"]):
                     head = p.then(P([("arm", sd, (thir.pat_str(arm["p"]),), i, Ref(arm))]))
+                    ab = thir.peel(arm["b"])
+                    lit_bool = ab.get("b") if isinstance(ab, dict) and ab.get("k") == "lit" and "b" in ab else None
                     for g in self.paths(arm.get("g")):
                         for q in self.paths(arm["b"]):
-                            res.append(P(head.ev + g.ev + q.ev, q.out, q.val))
+                            val = q.val
+                            if q.out == "val" and lit_bool is not None:
+                                val = lit_bool
+                            res.append(P(head.ev + g.ev + q.ev, q.out, val))
             if len(res) > self.max_paths:
                 raise Limit()
             return res
